@@ -14,7 +14,7 @@ CHECKS = {
  "C06": ("model-based testing: Hypothesis-generated URDF robots (grammar) + extra colliders, op lists of joint moves / re-posed frames / queries; brute-force AABB overlap, reference-shape poses, all-pairs reference GJK for self-collision (clear cases only)",
          "generated histories against brute-force and reference oracles after every step; held on everything explored"),
  "C19": ("property-based testing (Hypothesis) with a harness-owned clock: support-evaluation counters shadowed on collider instances (budget 1000), and interpreted-mode runs under a sys.monitoring LINE|JUMP|BRANCH event budget; finiteness and exception contract",
-         "bounded form of termination decided deterministically (no wall clock); generated extreme / degenerate scenes; one open known finding (C19-K1)"),
+         "bounded form of termination decided deterministically (no wall clock); generated extreme / degenerate scenes; two open known findings (C19-K1, C19-K3: EPA on an incomplete simplex / default capacity)"),
  "C07": ("property-based testing (Hypothesis): overlapping scenes, gjk -> epa protocol, vs exact qhull penetration depth (polytope pairs) and certified bounds (smooth pairs); both simplex windings",
          "generated-input search with an exact oracle for polytopes; two open known findings (GJK hands over an incomplete simplex; default face capacity)"),
  "C08": ("property-based testing (Hypothesis): overlapping scenes, mpr_penetration vs exact qhull penetration depth (polytopes) / ball-witness bounds, translation test, contact membership",
